@@ -36,7 +36,10 @@ def standins(tier, seed):
     sigs = [(3, 0, 0), (2, 0, 1), (1, 2, 0), (2, 1, 0)] if tier == 'quick' else \
         [(p, q, r) for p in range(4) for q in range(3) for r in range(2) if 2 <= p + q + r <= 4] + [(4, 1, 0), (3, 1, 1), (3, 3, 0)]
     cnt = lambda p, q, r: n if p + q + r <= 4 else min(n, 5)
-    return [{'name': f'series#{i}', 'bound': f'{cnt(p, q, r)} seeded operands per signature: pure-grade outer exponentials (exact, tolerance 1e-9 where the generated code '
+    extra = [dict(signature=[1, 1, 0], random=n), dict(signature=[1, -1, 0, 1], random=min(n, 4)), dict(name='2DPGA', random=n), dict(name='3DPGA', random=min(n, 4))]
+    return [{'name': f'series-layout#{i}', 'bound': f'{c["random"]} seeded operands in an algebra whose null generator is not the first key bit (signature order / named basis): the same identities',
+             'job': {'kind': 'series', 'module': 'standins.jobs6', 'configs': [c], 'seed': seed + 50 + i}} for i, c in enumerate(extra)] + \
+        [{'name': f'series#{i}', 'bound': f'{cnt(p, q, r)} seeded operands per signature: pure-grade outer exponentials (exact, tolerance 1e-9 where the generated code '
                                              'introduces float constants), blade exponentials of every sign of square (float, sympy, ndarray), Study-number square roots, powers +-n, norms; '
                                              'inverse-based identities (outertan, x**-2) only for inverse arguments with <= 4 blades in 5-D and <= 2 blades in 6-D',
              'job': {'kind': 'series', 'module': 'standins.jobs6', 'configs': [dict(p=p, q=q, r=r, random=cnt(p, q, r))], 'seed': seed + i}} for i, (p, q, r) in enumerate(sigs)]
